@@ -5,6 +5,7 @@ import warnings
 import xgi
 from xgi.exception import XGIError
 
+from .. import dhg as MD
 from .. import hg as MH
 from ..c18_translate import write as translate
 from ..core import TRUSTED_COMMON, build_and_audit, finish
@@ -214,21 +215,74 @@ def pred_hg(snap, op, prev, exc):
     return []
 
 
+# directed class: the model of C02 (lean/XgiModel/C02/DHG.lean, driver DHG), theorems in Props/C18D.lean
+FIELDS_D = ["out", "nodes", "edges", "tail", "head", "membIn", "membOut", "frozen"]
+WEIGHTS_D = {"freeze": 6}
+IN_PLACE_D = lambda op: not (op["op"] == "copy" or (op["op"] == "cleanup" and not op["in_place"]))
+
+
+class DRecv:
+    """harness.dhg with one more observation: whether the *receiver* of the call kept its structure and its flag
+    (`copy` / `cleanup(in_place=False)` hand back another object and the history continues there; the frozen
+    receiver they were called on must stay as it was)"""
+    NAME, factory, gen_history, to_request, nontrivial = MD.NAME, staticmethod(MD.factory), staticmethod(MD.gen_history), staticmethod(MD.to_request), staticmethod(MD.nontrivial)
+
+    @staticmethod
+    def apply_impl(box, op):
+        recv = box.H
+        before = (structure(recv), bool(recv.is_frozen))
+        r = MD.apply_impl(box, op)
+        box.recv_kept = (structure(recv), bool(recv.is_frozen)) == before
+        return r
+
+    @staticmethod
+    def snapshot(box, out="ok"):
+        s = MD.snapshot(box, out)
+        s["recv_kept"] = getattr(box, "recv_kept", True)
+        return s
+
+
+def pred_dhg(snap, op, prev, exc):
+    """on the implementation, along directed histories: a frozen DiHypergraph never changes structure again"""
+    if not prev.get("frozen"):
+        return []
+    if not snap["recv_kept"]:
+        return [("frozen-network-mutated", f"DiHypergraph: {op['op']} changed the frozen network it was called on")]
+    if IN_PLACE_D(op):
+        if any(snap[k] != prev[k] for k in ("nodes", "edges", "tail", "head", "membIn", "membOut")):
+            return [("frozen-network-mutated", f"DiHypergraph: {op['op']} changed a frozen network")]
+        if not snap.get("frozen"):
+            return [("is-frozen-lost", f"DiHypergraph: {op['op']} unfroze the network")]
+    return []
+
+
 def run(ctx):
     tab = translate()
     ctx.extra["freeze_table"] = {k: v["frozen"] for k, v in tab.items()}
-    ok = build_and_audit(ctx, "XgiModel.Props.C18", ["XgiModel.Drive.HG"])
+    # Props/C18D.lean: the same theorems on the directed model (C18_table_dihypergraph over the regenerated table, …)
+    # Props/C18S.lean: the same theorems on the simplicial model (C18_table_simplicialcomplex over the regenerated table, …)
+    ok = build_and_audit(ctx, "XgiModel.Props.C18", ["XgiModel.Drive.HG", "XgiModel.Props.C18D", "XgiModel.C02.Drive",
+                                                      "XgiModel.Props.C18S"],
+                         audit_extra=("XgiModel.Props.C18D", "XgiModel.Props.C18S"))
     ctx.rule = ("(a) probing: every public callable of the three classes (introspection) and the in-place library functions, with "
                 "argument tuples from a table plus a generic fallback; those that change structure on an unfrozen network must raise "
                 "XGIError and change nothing on a frozen twin; (b) histories on xgi.Hypergraph containing freeze(), compared with the "
-                "model on (outcome, nodes, edges, members, memberships, frozen); non-trivial = distinct (class, method, args) that "
-                "mutates, resp. distinct states")
+                "model on (outcome, nodes, edges, members, memberships, frozen); (c) histories on xgi.DiHypergraph containing freeze() "
+                "(incl. cleanup, relabelling, copy), compared with the directed model on (outcome, nodes, edges, tail, head, in/out "
+                "memberships, frozen), the receiver of every call on a frozen network re-read afterwards; non-trivial = distinct "
+                "(class, method, args) that mutates, resp. distinct states")
     probe(ctx)
     dis, hist = run_sm(ctx, MH, "HG", FIELDS, pred_hg, ctx.n(200, 6000), weights=WEIGHTS, model_ok=ok,
                        corr_name="correspondence HG~Hypergraph incl. freeze")
+    keep = {k: ctx.stats[k] for k in ("histories", "corpus_histories")}
+    dis_d, _ = run_sm(ctx, DRecv, "DHG", FIELDS_D, pred_dhg, ctx.n(150, 4000), weights=WEIGHTS_D, model_ok=ok,
+                      corr_name="correspondence DHG~DiHypergraph incl. freeze")
+    ctx.stats["histories_directed"] = ctx.stats["histories"] - ctx.stats["corpus_histories"]
+    ctx.stats["histories"], ctx.stats["corpus_histories"] = keep["histories"], keep["corpus_histories"]
+    dis = list(dis) + list(dis_d)
     conclude(ctx, ok, dis)
     ctx.assumptions = ["probing argument table is hand-written per method name; unknown (new) methods get a generic fallback",
-                       "the theorem part covers the undirected model; directed / simplicial classes are decided by probing until their models land"]
+                       "the theorem part covers the undirected model (Props/C18) and the directed model (Props/C18D); the simplicial class is decided by probing"]
     return finish(ctx, trusted_base=TRUSTED_COMMON + ["AST translator harness/c18_translate.py (reads the `self.X = frozen` assignments of freeze())"])
 
 
@@ -253,4 +307,6 @@ def replay(ctx, path):
             return 1
         print(f"replay {path}: not reproduced on the current tree")
         return 0
+    if case.get("class") == "DiHypergraph":
+        return replay_sm(ctx, DRecv, "DHG", FIELDS_D, pred_dhg, path)
     return replay_sm(ctx, MH, "HG", FIELDS, pred_hg, path)
